@@ -196,7 +196,7 @@ impl Property for C05 {
         proptest::sample::select(ALL_KINDS.to_vec()).prop_flat_map(scenario_for).boxed()
     }
     fn cases(tier: Tier) -> u32 {
-        tier.pick(12_000, 150_000)
+        tier.pick(60_000, 300_000)
     }
     fn exhaustive(_tier: Tier, sink: &mut dyn FnMut(Scenario)) -> Vec<String> {
         // all event-kind sequences of length <= 5 for every stream (values fixed, dt varied)
